@@ -68,6 +68,36 @@ theorem cancel_flag_sticky (sites : List Site) (s : Site) (cb : Option Cb) (i : 
   | none => exact ⟨i, by simp [checkProgress, hs]⟩
   | some f => exact ⟨i + 1, by simp [checkProgress, hs]⟩
 
+theorem runF_cancel_at (cb : Cb) (k : Nat) (hcb : ∀ j, cb j = true) :
+    ∀ (sites : List Site) (i : Nat) (logged : Bool),
+      AllPropagate sites → i ≤ k → k - i < sites.length →
+      runF cb k sites i false logged = .cancelled (k + 1) := by
+  intro sites
+  induction sites with
+  | nil => intro i logged _ _ hlen; simp at hlen
+  | cons s rest ih =>
+    intro i logged hall hik hlen
+    unfold runF
+    simp only [checkProgressF, Bool.false_or, hcb, Bool.true_and]
+    by_cases hi : i = k
+    · subst hi
+      have hs : s.disp = .propagate := hall s (List.mem_cons_self ..)
+      simp [hs]
+    · have hne : (i == k) = false := by simpa using hi
+      simp only [hne, Bool.not_false, if_true]
+      apply ih
+      · intro x hx; exact hall x (List.mem_cons_of_mem _ hx)
+      · omega
+      · simp at hlen; omega
+
+/-- **Cancelling from inside a callback cancels**: if the callback of invocation k calls
+`Context::cancel()` (and answers `true`), the operation ends with `OperationCancelled` at
+that very checkpoint — the flag is examined after the callback returns. -/
+theorem cancel_in_callback_cancels (sites : List Site) (cb : Cb) (k : Nat)
+    (hall : AllPropagate sites) (hk : k < sites.length) (hcb : ∀ j, cb j = true) :
+    runF cb k sites 0 false false = .cancelled (k + 1) :=
+  runF_cancel_at cb k hcb sites 0 false hall (Nat.zero_le _) (by simpa using hk)
+
 /-- The shape of the repaired defect: one swallowing checkpoint lets a cancelled operation
 finish with the cancellation logged as a validation failure (proved witness). -/
 theorem swallow_breaks_cancellation :
@@ -120,6 +150,7 @@ theorem hash_binding_arms_guarded :
 example : AllPropagate (skeleton 5) := by
   intro s hs; simp [skeleton] at hs; rw [hs]
 example : run (some (fun i => i != 3)) false (skeleton 5) 0 false = .cancelled 4 := by decide
+example : runF (fun _ => true) 2 (skeleton 5) 0 false false = .cancelled 3 := by decide
 example : traceWf [⟨"Hashing", 1, 3⟩, ⟨"Hashing", 2, 3⟩, ⟨"Signing", 1, 1⟩] = true := by decide +kernel
 example : traceWf [⟨"Hashing", 2, 3⟩, ⟨"Hashing", 2, 3⟩] = false := by decide +kernel
 
